@@ -5,7 +5,9 @@
    the arguments IT computes; if the library called the oracle with different
    arguments the lookup misses and the line is reported.
 
-   usage: mdriver <cases> <c-results> <model-results> [signed(0|1)] *)
+   usage: mdriver <cases> <c-results> <model-results> <spec-results> [signed(0|1)]
+   <spec-results>: the same operations run on the abstract seed machine
+   (SpecApi.astep), outputs only. *)
 open Model
 
 let rec pos_of_int i =
@@ -110,6 +112,9 @@ let make_deps tag tnull anull fnull : deps =
   { dp_tag = t; dp_nfc = mk_transform "nfc" t; dp_nfkd = mk_transform "nfkd" t;
     dp_kdf = mk_kdf t; dp_time_libc = tnull; dp_alloc_libc = anull; dp_free_libc = fnull }
 
+let fresh_astate () : astate =
+  { as_deps = make_deps 0 false false false; as_mask = N0; as_seeds = []; as_next = N0 }
+
 let fresh_state () : state =
   { st_deps = make_deps 0 false false false; st_reserved = rESERVED_DEFAULT;
     st_heap = []; st_next = N0 }
@@ -175,23 +180,30 @@ let () =
   let cases = open_in Sys.argv.(1) in
   let cres = open_in Sys.argv.(2) in
   let out = open_out Sys.argv.(3) in
-  let sgn = if Array.length Sys.argv > 4 then Sys.argv.(4) <> "0" else char_signed in
+  let sout = open_out Sys.argv.(4) in
+  let sgn = if Array.length Sys.argv > 5 then Sys.argv.(5) <> "0" else char_signed in
   let st = ref (fresh_state ()) in
+  let ast = ref (fresh_astate ()) in
   let lineno = ref 0 in
   (try
     while true do
       let line = input_line cases in
       incr lineno;
       let cline = try input_line cres with End_of_file -> "" in
-      if String.length line = 0 || line.[0] = '#' then
-        Printf.fprintf out "%d skip\n" !lineno
+      if String.length line = 0 || line.[0] = '#' then begin
+        Printf.fprintf out "%d skip\n" !lineno;
+        Printf.fprintf sout "%d skip\n" !lineno
+      end
       else begin
         let (opname, fs) = fields line in
         if opname = "reset" then begin
           st := fresh_state ();
-          Printf.fprintf out "%d unit ev=\n" !lineno
+          ast := fresh_astate ();
+          Printf.fprintf out "%d unit ev=\n" !lineno;
+          Printf.fprintf sout "%d unit\n" !lineno
         end else match parse_op opname fs with
-          | None -> Printf.fprintf out "%d unknown-op\n" !lineno
+          | None -> Printf.fprintf out "%d unknown-op\n" !lineno;
+                    Printf.fprintf sout "%d unknown-op\n" !lineno
           | Some o ->
             load_answers cline;
             misses := [];
@@ -202,8 +214,15 @@ let () =
             Printf.fprintf out "%d %s ev=%s%s\n" !lineno
               (out_str (geti fs "wantlang" 1 <> 0) o')
               (String.concat "," (List.map (ev_str t) evs))
+              (if !misses = [] then "" else " miss=" ^ String.concat "," (List.rev !misses));
+            misses := [];
+            let (ast', ao) = astep langs !ast o in
+            ast := ast';
+            Printf.fprintf sout "%d %s%s\n" !lineno
+              (out_str (geti fs "wantlang" 1 <> 0) ao)
               (if !misses = [] then "" else " miss=" ^ String.concat "," (List.rev !misses))
       end
     done
   with End_of_file -> ());
-  close_out out
+  close_out out;
+  close_out sout
